@@ -893,7 +893,7 @@ PROPS["C15"] = dict(
 
 PROPS["C04"] = dict(
     lean_targets=["SJ.Props.C04", "SJ.Audit.C04"],
-    configs=dict(quick=["d", "fr"], thorough=["d", "fr", "po", "ap", "rv"]),
+    configs=dict(quick=["d", "fr", "ap"], thorough=["d", "fr", "po", "ap", "rv"]),
     gen_keys=["ser.", "de.", "error."],
     rule="rtv: Values — a fixed corpus (boundary integers 0, +-1, +-2^53(+-1), i64::MIN/MAX, u64::MAX, powers of ten; every control "
          "character, quote, backslash, U+2028, U+FFFF, astral characters as string, as key and inside a string; strings that look "
